@@ -9,7 +9,7 @@ for f in lean/Driver/C*.lean; do
   n=$(basename "$f" .lean | tr 'C' 'c')
   drivers="$drivers drv_$n"
 done
-(cd lean && lake build Pithos $drivers)
+(cd lean && lake build Pithos $drivers) || echo "setup: some Lean targets failed to build; the affected ./check Cxx runs will report them"
 python3 - <<'PY'
 import importlib.machinery, importlib.util, sys
 loader = importlib.machinery.SourceFileLoader("check", "./check")
